@@ -94,7 +94,10 @@ def invert4rankTensor(c4):
     This is done by converting to 2nd rank, inverting, then converting back to 4th rank
     '''
     c2 = convert4To2rankTensor(c4)
-    return convert2To4rankTensor(np.linalg.inv(c2))
+    #The double contraction counts each shear component twice (ij and ji), so for A:B = I with
+    #the 6x6 arrays holding tensor components, B = W^-1 A^-1 W^-1 where W = diag(1,1,1,2,2,2)
+    invW = np.diag([1, 1, 1, 0.5, 0.5, 0.5])
+    return convert2To4rankTensor(np.matmul(invW, np.matmul(np.linalg.inv(c2), invW)))
 
 def convertVecTo2rankTensor(v):
     '''
@@ -573,8 +576,10 @@ class EllipsoidalEnergyDescription(StrainEnergyDescriptionBase):
         V = 4*np.pi/3 * np.prod(radius)
         S = convert4To2rankTensor(self.Sijmn(self.Dijkl(radius, c4)))
         eigFlat = convert2rankToVec(eigenstrain)
-        multTerm = np.matmul(c2, S - np.eye(6))
-        return -0.5 * V * np.matmul(eigFlat, np.matmul(multTerm, eigFlat))
+        #The 6x6 arrays hold tensor components, so contractions need the shear components counted twice
+        W = np.diag([1, 1, 1, 2, 2, 2])
+        multTerm = np.matmul(np.matmul(c2, W), np.matmul(S, W) - np.eye(6))
+        return -0.5 * V * np.matmul(np.matmul(W, eigFlat), np.matmul(multTerm, eigFlat))
 
     def strainEnergyBohm(self, radius):
         '''
@@ -604,11 +609,15 @@ class EllipsoidalEnergyDescription(StrainEnergyDescriptionBase):
         V = 4*np.pi/3 * np.prod(radius)
         S = convert4To2rankTensor(self.Sijmn(self.Dijkl(radius, cM4)))
         eigFlat = convert2rankToVec(eigenstrain)
-        invTerm = np.linalg.inv(np.matmul(cP2 - cM2, S) + cM2)
-        multTerm = np.matmul(invTerm, cP2)
-        stressC = np.matmul(cM2, np.matmul(np.matmul(S, multTerm), eigFlat))
-        stress0 = np.matmul(cM2, np.matmul(multTerm, eigFlat))
-        return -0.5 * V * np.matmul(eigFlat, stressC - stress0)
+        #The 6x6 arrays hold tensor components, so contractions need the shear components counted twice
+        W = np.diag([1, 1, 1, 2, 2, 2])
+        invW = np.diag([1, 1, 1, 0.5, 0.5, 0.5])
+        invTerm = np.matmul(invW, np.matmul(np.linalg.inv(np.matmul(np.matmul(cP2 - cM2, W), S) + cM2), invW))
+        multTerm = np.matmul(np.matmul(invTerm, W), cP2)
+        strainTerm = np.matmul(np.matmul(multTerm, W), eigFlat)
+        stressC = np.matmul(np.matmul(cM2, W), np.matmul(np.matmul(S, W), strainTerm))
+        stress0 = np.matmul(np.matmul(cM2, W), strainTerm)
+        return -0.5 * V * np.matmul(np.matmul(W, eigFlat), stressC - stress0)
 
     def computeStrainEnergy(self, radius):
         return self.strainEnergyBohm(radius)
